@@ -54,6 +54,26 @@ def cases(draw, dag=False):
         ops, G, _info = gen.gen_dag_model(draw, uncached_p=2, handled=False)
     else:
         ops, G = gen.gen_model_ops(draw, FEAT)
+    match_scen = None
+    if not dag and draw(st.integers(0, 3)) == 0 and "Qm" not in G.spaces:
+        # a table cells (entries assigned by the user, None elsewhere) read through Cells.match by another cells:
+        # the reader depends on every entry that was probed, the held None of the more specific key included
+        tb = {"name": "tb", "params": [["x", None], ["y", None]], "expr": ["none"], "cached": True, "allow_none": True,
+              "form": "lambda", "tick": True}
+        rd = {"name": "rd", "params": [["x", None]], "cached": True, "allow_none": None, "form": "lambda", "tick": True,
+              "expr": ["bin", "+", ["matchv", ["attr", ["attr", ["name", "_model"], "Qm"], "tb"],
+                                    [["var", "x"], ["lit", 2]]], ["var", "x"]]}
+        for op in (["new_space", [], "Qm", None, None], ["new_cells", ["Qm"], tb], ["new_cells", ["Qm"], rd]):
+            ops.append(op)
+            apply_ref(G, op)
+        a = draw(st.integers(0, 2))
+        edit = draw(st.sampled_from([["set_value", ["Qm"], "tb", [a, None], 7], ["set_value", ["Qm"], "tb", [a, 2], 9],
+                                     ["clear_at", ["Qm"], "tb", [a, 2]], ["clear_all", ["Qm"], "tb"],
+                                     ["set_value", ["Qm"], "tb", [None, 2], 8]]))
+        match_scen = [["set_value", ["Qm"], "tb", [a, None], 5], ["set_value", ["Qm"], "tb", [None, None], 1]]
+        if draw(st.integers(0, 3)) != 0:
+            match_scen.append(["eval", ["Qm"], "tb", [a, 2], None, "()"])      # the specific entry holds None already
+        match_scen += [["eval", ["Qm"], "rd", [a], None, "()"], edit, ["eval", ["Qm"], "rd", [a], None, "()"]]
     sids = gen.all_ctx_ids(G) + gen.item_sids(G, 2)
     hist = []
     gsim = MemoSim()        # the generator's own picture of what is held (used to aim edits)
@@ -74,7 +94,17 @@ def cases(draw, dag=False):
         if q:
             q[1] = gen._jsid(tup(q[1]))
             emit_eval(q)
-    for _ in range(draw(st.integers(4, 14))):
+    nsteps = draw(st.integers(4, 14))
+    at = draw(st.integers(0, nsteps - 1)) if match_scen else -1
+    for step in range(nsteps):
+        if step == at:
+            for op in match_scen:
+                if op[0] == "eval":
+                    emit_eval(op)
+                else:
+                    hist.append(op)
+                    apply_ref(G, op)
+                    gsim.discard_many([x for x in gsim.held if x[0] == ("Qm",)])
         k = draw(st.integers(0, 13))
         if not dag and k in (3, 11):
             # an element that the parameter formula of a live instance was computed from gets a value from the user
